@@ -84,7 +84,7 @@ func (w *vfWorld) vfGetDefault(id *url.URL) vocab.Type {
 	idp.Set(id)
 	maxKind := 5
 	if w.hostile {
-		maxKind = 8
+		maxKind = 10
 	}
 	sk := vfUFInt("storedKind", id.String(), 0, maxKind)
 	if w.smallWorld {
@@ -111,6 +111,22 @@ func (w *vfWorld) vfGetDefault(id *url.URL) vocab.Type {
 		p := streams.NewActivityStreamsPerson()
 		p.SetJSONLDId(idp)
 		return p
+	case 9: // hostile: a Collection with a member that has neither id nor href
+		c := streams.NewActivityStreamsCollection()
+		c.SetJSONLDId(idp)
+		it := streams.NewActivityStreamsItemsProperty()
+		it.AppendActivityStreamsNote(streams.NewActivityStreamsNote())
+		it.AppendIRI(vfURL("stored.member"))
+		c.SetActivityStreamsItems(it)
+		return c
+	case 10: // hostile: an OrderedCollection with such a member
+		c := streams.NewActivityStreamsOrderedCollection()
+		c.SetJSONLDId(idp)
+		oi := streams.NewActivityStreamsOrderedItemsProperty()
+		oi.AppendIRI(vfURL("stored.member"))
+		oi.AppendActivityStreamsNote(streams.NewActivityStreamsNote())
+		c.SetActivityStreamsOrderedItems(oi)
+		return c
 	case 1:
 		items := w.colItems
 		if w.membersOf != nil {
